@@ -28,6 +28,8 @@ def u_assumptions(results):
            'route U: z3 4.8.12 (cbmc --z3) and CBMC\'s array-theory encoding of __CPROVER_constant_infinity_uint arrays are sound']
     if any(r['container'] == 'rr_cache' for r in us):
         out.append('route U rr_cache do_prune/insert: "every slot of a full cache is in use" (pigeonhole on the injective open list) is assumed at the drawn slot; discharged by route B at bounded capacity')
+    if any('U-expired-le-2' in r.get('unit', '') for r in us):
+        out.append('bounded stand-in (route U): ut_map/ut_set do_prune is decided for every number of stored entries but for at most 2 entries expired at the call (loop and erase(range) unwound); not counted as an every-capacity result')
     rep = sorted(set(x for r in us for x in r.get('replaced', [])))
     for x in rep:
         out.append('route U assumed contract of a repository function: calls %s (goto-instrument --replace-calls); the contract (contracts/<container>.spec: wf, frame, all and only the entries with deadline <= now leave, count) is enforced on the function itself only in route B, at bounded sizes' % x.replace(':', ' -> '))
